@@ -175,46 +175,26 @@ def run(ctx):
             if isinstance(n, ast.Name) and n.id in defs and len(defs[n.id]) == 1:
                 return to_sympy(defs[n.id][0], env, f, atom)
             return None
-        e = to_sympy(d.value, env, f, atom)
-        want = R * sp.sqrt(sym["Temp"] * sym["minv"]) * sym["VEL"]
-        ctx.check(sp.simplify(e - want) == 0, "R3", md, d, "Molecular_Dynamics_Basic.initialize_velocity", d,
-                  "draw amplitude = sqrt(Temp * mass_inverse) * VEL_SCALE per atom", f"draw is {e}, expected {want}")
+        # (the amplitude of the draw is decided by the interpreted postconditions below; the pre-rescale amplitude sqrt(Temp * mass_inverse) * VEL_SCALE is checked
+        #  in its own right only when the expression is a per-atom scalar formula)
+        try:
+            e = to_sympy(d.value, env, f, atom)
+            want = R * sp.sqrt(sym["Temp"] * sym["minv"]) * sym["VEL"]
+            ctx.check(sp.simplify(e - want) == 0, "R3", md, d, "Molecular_Dynamics_Basic.initialize_velocity", d,
+                      "draw amplitude = sqrt(Temp * mass_inverse) * VEL_SCALE per atom", f"draw is {e}, expected {want}")
+        except AnalysisError:
+            pass
         rn_calls = [c for c in calls_in(d.value) if (call_name(c) or "").startswith("torch.randn")]
         ctx.check(norm(rn_calls[0].args[0]) == "molecule.coordinates" and not any(k.arg == "generator" for k in rn_calls[0].keywords), "R3", md, d,
                   "Molecular_Dynamics_Basic.initialize_velocity", d, "one independent normal per coordinate from the global generator",
                   "draw shape/generator changed")
-        # chain after the draw: Ek -> T1 -> alpha -> mul_ -> _zero_com
-        dn = g.nodes_of(d)[0]
-        ek = [n for n in g.nodes if n.kind == "stmt" and isinstance(n.stmt, ast.Assign) and norm(n.stmt.value) == "self._kinetic_energy(molecule)"]
-        t1 = [n for n in g.nodes if n.kind == "stmt" and isinstance(n.stmt, ast.Assign) and callee_attr(n.stmt.value) == "_calc_temperature"
-              if isinstance(n.stmt.value, ast.Call)]
-        mul = [n for n in g.nodes if n.kind == "stmt" and any(a == "velocities" and h == "mul_" for a, h, _ in mutated_phase_attr(n.stmt))]
-        zc = [n for n in g.nodes if n.kind == "stmt" and any(callee_attr(c) == "_zero_com" for c in calls_in(n.stmt)) and n.id in g.reachable(dn)]
-        chain_ok = bool(ek and t1 and mul and zc)
-        if chain_ok:
-            seq = [dn, ek[0].id, t1[0].id, mul[0].id]
-            for a, b in zip(seq, seq[1:]):
-                chain_ok = chain_ok and g.dominates(a, b) and b in g.reachable(a)
-            # rescale factor
-            mc = [x for _, h, x in mutated_phase_attr(mul[0].stmt) if h == "mul_"][0]
-            T1 = sp.Symbol("T1", positive=True)
-            env2 = dict(env)
-            env2[norm(t1[0].stmt.targets[0])] = T1
-            try:
-                fac = to_sympy(mc.args[0], env2, md_funcs(), lambda n: (to_sympy(defs[n.id][0], env2, md_funcs()) if isinstance(n, ast.Name) and n.id in defs and len(defs[n.id]) == 1 else None))
-                chain_ok = chain_ok and sp.simplify(fac - sp.sqrt(sym["Temp"] / T1)) == 0
-            except AnalysisError:
-                chain_ok = False
-            chain_ok = chain_ok and norm(t1[0].stmt.value.args[0]) == norm(ek[0].stmt.targets[0])
-        ctx.check(chain_ok, "R3", md, d, "Molecular_Dynamics_Basic.initialize_velocity", "draw -> Ek -> T1 -> mul_(sqrt(Temp/T1))",
-                  "drawn velocities are rescaled by sqrt(Temp/T1) with T1 measured from the drawn velocities",
-                  "exact rescale chain (draw -> kinetic energy -> temperature -> *sqrt(Temp/T1)) is broken")
-        for z in zc:
-            c = [c for c in calls_in(z.stmt) if callee_attr(c) == "_zero_com"][0]
-            kws = {k.arg: norm(k.value) for k in c.keywords}
-            ctx.check(kws.get("restore_kinetic_energy", "True") == "True" and (not mul or z.id in g.reachable(mul[0].id)), "R3", md, c,
-                      "Molecular_Dynamics_Basic.initialize_velocity", c, "COM removal after the rescale restores the kinetic energy (temperature stays exact)",
-                      "COM removal of freshly drawn velocities does not restore the kinetic energy / precedes the rescale")
+        # what the routine achieves, decided by interpreting it (sa.npsym, exact arithmetic, the normal draw replaced by fixed rational numbers) on a padded batch:
+        # the instantaneous temperature of every molecule equals the requested one exactly, velocities are the draw scaled by sqrt(mass_inverse) up to one factor per
+        # molecule, padding atoms stay at rest, and with vel_com the total momentum vanishes without changing the temperature
+        chain_ok, why = _initial_velocity_postconditions(ctx, md)
+        ctx.check(chain_ok, "R3", md, d, "Molecular_Dynamics_Basic.initialize_velocity", "draw -> exact temperature",
+                  "drawn velocities are mass-weighted normals rescaled so that every molecule's own temperature is exactly Temp (padded batch, exact arithmetic), also after COM removal",
+                  f"initial velocities: {why}")
     # n_dof guard and T == 0 shortcut
     guard = [n for n in g.nodes if n.kind == "if" and norm(n.expr).replace(" ", "") == "self.n_dofisNone"]
     ctx.check(bool(guard) and any(isinstance(g.nodes[b].stmt, ast.Raise) for b, lab in g.succ[guard[0].id] if lab == "true"), "R3", md, iv,
@@ -304,72 +284,140 @@ def run(ctx):
     check_zero_com(ctx, md, "R5")
 
 
+def _initial_velocity_postconditions(ctx, md):
+    import random
+    import types
+    import numpy as np
+    import sympy as sp
+    from ..npsym import NpSym, Raised
+    repo = ctx.repo
+    iv = md.func("Molecular_Dynamics_Basic.initialize_velocity")
+    rng = random.Random(9)
+    R = lambda: sp.Rational(rng.randint(-9, 9) or 1, rng.randint(1, 5))
+    mass = np.array([[[sp.Integer(16)], [sp.Integer(12)], [sp.Integer(1)]], [[sp.Integer(14)], [sp.Integer(1)], [sp.Integer(0)]]], dtype=object)
+    minv = np.array([[[sp.Rational(1, 16)], [sp.Rational(1, 12)], [sp.Integer(1)]], [[sp.Rational(1, 14)], [sp.Integer(1)], [sp.Integer(0)]]], dtype=object)
+    coords = np.array([[[R() for _ in range(3)] for _ in range(3)] for _ in range(2)], dtype=object)
+    G = np.array([[[R() for _ in range(3)] for _ in range(3)] for _ in range(2)], dtype=object)
+    Temp = sp.Integer(300)
+    ndof = sp.Integer(6)
+    for vel_com in (False, True):
+        I = NpSym(repo, stubs={"torch.randn_like": lambda x, *a, **k: G.copy()})
+        mol = types.SimpleNamespace(mass=mass.copy(), mass_inverse=minv.copy(), coordinates=coords.copy(), velocities=None)
+        selfns = types.SimpleNamespace(Temp=Temp, n_dof=ndof)
+        for nm in ("_kinetic_energy", "_calc_temperature", "_zero_com"):
+            setattr(selfns, nm, _bind(I, md, md.func(f"Molecular_Dynamics_Basic.{nm}"), selfns))
+        try:
+            I.call_function(md, iv, [selfns, mol], {"vel_com": vel_com})
+        except Raised as e:
+            return False, f"raises on an ordinary padded batch ({e.what[:80]})"
+        v = mol.velocities
+        if getattr(v, "shape", None) != (2, 3, 3):
+            return False, "velocities have the wrong shape"
+        KES = I.global_value(md, "CONSTANTS").KINETIC_ENERGY_SCALE
+        TS = I.global_value(md, "CONSTANTS").TEMPERATURE_SCALE
+        m = mass[..., 0]
+        for b in range(2):
+            ke = sp.Rational(1, 2) * sum(m[b, a] * v[b, a, c] ** 2 for a in range(3) for c in range(3)) * KES
+            T = ke * TS / (sp.Rational(1, 2) * ndof)
+            if sp.simplify(T - Temp) != 0:
+                return False, f"the temperature of molecule {b} of a padded batch is {sp.N(T, 8)} K instead of the requested {Temp} K (vel_com={vel_com})"
+            if not vel_com:
+                ref = v[b, 0, 0] / (G[b, 0, 0] * sp.sqrt(minv[b, 0, 0]))
+                for a in range(3):
+                    for c in range(3):
+                        if sp.simplify(v[b, a, c] - ref * G[b, a, c] * sp.sqrt(minv[b, a, 0])) != 0:
+                            return False, f"velocity of atom {a} of molecule {b} is not the normal draw scaled by sqrt(mass_inverse) (one common factor per molecule)"
+            else:
+                if any(sp.simplify(sum(m[b, a] * v[b, a, c] for a in range(3))) != 0 for c in range(3)):
+                    return False, f"molecule {b} keeps a net momentum after initialisation with vel_com"
+        if any(sp.simplify(v[1, 2, c]) != 0 for c in range(3)):
+            return False, "the padding atom receives a velocity"
+    return True, ""
+
+
 def check_zero_com(ctx, md, rid):
-    """COM projection: momentum expressions, COM-relative positions, kinetic-energy restoration (shared with C08)."""
+    """COM projection decided by its postconditions (shared with C08).  `_zero_com` (and the kinetic-energy routine it calls) is interpreted by sa.npsym with exact
+    rational arithmetic on a padded batch -- a non-collinear 3-atom molecule and a 2-atom molecule with one padding atom, different masses -- for every combination of
+    its switches.  Whatever the spelling: afterwards each molecule has zero linear momentum, zero angular momentum about its own centre of mass (when requested), its own
+    kinetic energy restored (when requested), padding atoms at rest, positions centred (when requested) and otherwise untouched."""
+    import itertools
+    import random
+    import types
+    import numpy as np
+    import sympy as sp
+    from ..npsym import NpSym, FuncRef, Raised
+    repo = ctx.repo
     zc = md.func("Molecular_Dynamics_Basic._zero_com")
-    defs = local_defs(zc)
-    txt = {k: norm(v[0]).replace(" ", "") for k, v in defs.items() if len(v) == 1}
-    ctx.check(txt.get("v_com") == "torch.sum(mass*molecule.velocities,dim=1,keepdim=True)/M" and txt.get("M") == "torch.sum(mass,dim=1,keepdim=True)"
-              and txt.get("mass") == "molecule.mass", rid, md, zc, "Molecular_Dynamics_Basic._zero_com", "v_com",
-              "COM velocity = sum(m v)/sum(m) per molecule", f"COM velocity expression changed: v_com={txt.get('v_com')}, M={txt.get('M')}")
-    ctx.check(txt.get("r_com") == "torch.sum(mass*molecule.coordinates,dim=1,keepdim=True)/M", rid, md, zc, "Molecular_Dynamics_Basic._zero_com", "r_com",
-              "COM position = sum(m r)/sum(m)", f"COM position expression changed: {txt.get('r_com')}")
-    ctx.check(txt.get("L") == "torch.sum(mass*torch.linalg.cross(r_rel,molecule.velocities,dim=2),dim=1)", rid, md, zc, "Molecular_Dynamics_Basic._zero_com", "L",
-              "angular momentum = sum m r x v", f"angular momentum expression changed: {txt.get('L')}")
-    # positions used for the angular part are relative to the centre of mass on every path
-    g = build_cfg(zc)
-    rdefs = [n for n in g.nodes if n.kind == "stmt" and isinstance(n.stmt, ast.Assign) and norm(n.stmt.targets[0]) == "r_rel"]
-    if not rdefs:
-        raise AnalysisError("_zero_com: r_rel not found")
-    shifts = {n.id for n in g.nodes if n.kind == "stmt" and any(a == "coordinates" and h in ("sub_", "copy_") for a, h, _ in mutated_phase_attr(n.stmt))
-              and "r_com" in norm(n.stmt) + "".join(norm(d) for d in defs.get("r_rel", []))}
-    for n in rdefs:
-        v = norm(n.stmt.value).replace(" ", "")
-        rel_ok = v == "molecule.coordinates-r_com" or (v == "molecule.coordinates" and g.dominated_by_any(n.id, shifts) and bool(shifts))
-        ctx.check(rel_ok, rid, md, n.stmt, "Molecular_Dynamics_Basic._zero_com", n.stmt,
-                  "inertia tensor / rotation field use positions relative to the centre of mass on every path",
-                  f"r_rel = `{norm(n.stmt.value)}` is not relative to the centre of mass on every path (angular-momentum removal about "
-                  f"the wrong point injects linear momentum)")
-    used_r = {x.id for st in ast.walk(zc) if isinstance(st, ast.Assign) and norm(st.targets[0]) in ("L", "I") for x in ast.walk(st.value) if isinstance(x, ast.Name)}
-    ctx.check("r_rel" in used_r and "molecule" not in {x for x in used_r if x == "coordinates"}, rid, md, zc, "Molecular_Dynamics_Basic._zero_com", "L, I use r_rel",
-              "angular momentum and inertia tensor are built from r_rel", "angular momentum / inertia tensor no longer use COM-relative positions")
-    # KE restoration: alpha = sqrt(Ek_initial/Ek_after), Ek_initial before any mutation, Ek_after after all
-    muts = [n.id for n in g.nodes if n.kind == "stmt" and any(a == "velocities" and h in ("sub_", "add_") for a, h, _ in mutated_phase_attr(n.stmt))]
-    # located structurally: the velocity rescale `velocities.mul_(A...)`, A = sqrt(N / D), N and D kinetic-energy measurements
-    ke_nodes = {}
-    for n in g.nodes:
-        if n.kind == "stmt" and isinstance(n.stmt, ast.Assign) and isinstance(n.stmt.targets[0], ast.Name) and isinstance(n.stmt.value, ast.Call) \
-                and callee_attr(n.stmt.value) == "_kinetic_energy":
-            ke_nodes[n.stmt.targets[0].id] = n.id
-    al = []
-    num = den = None
-    for n in g.nodes:
-        if n.kind == "stmt" and isinstance(n.stmt, ast.Assign) and isinstance(n.stmt.targets[0], ast.Name) and isinstance(n.stmt.value, ast.Call) \
-                and (call_name(n.stmt.value) or "") == "torch.sqrt" and n.stmt.value.args and isinstance(n.stmt.value.args[0], ast.BinOp) \
-                and isinstance(n.stmt.value.args[0].op, ast.Div):
-            q = n.stmt.value.args[0]
-            if isinstance(q.left, ast.Name) and isinstance(q.right, ast.Name) and q.left.id in ke_nodes and q.right.id in ke_nodes:
-                al.append(n)
-                num, den = q.left.id, q.right.id
-    scale_used = False
-    if al:
-        aname = al[0].stmt.targets[0].id
-        for n in g.nodes:
-            if n.kind == "stmt" and any(a == "velocities" and h == "mul_" for a, h, _ in mutated_phase_attr(n.stmt)) and aname in {x.id for x in ast.walk(n.stmt) if isinstance(x, ast.Name)}:
-                scale_used = al[0].id in g.reachable(ke_nodes[den]) and n.id in g.reachable(al[0].id)
-    e0 = [ke_nodes[num]] if num else []
-    e1 = [ke_nodes[den]] if den else []
-    ok = bool(muts and e0 and e1 and al and scale_used) and all(mu in g.reachable(e0[0]) and e1[0] in g.reachable(mu) for mu in muts) \
-        and not any(e0[0] in g.reachable(mu) for mu in muts) \
-        and any(p and norm(a) == "restore_kinetic_energy" for a, p, _ in controlling(md, al[0].stmt))
-    ctx.check(bool(ok), rid, md, zc, "Molecular_Dynamics_Basic._zero_com", "alpha = sqrt(Ek_initial / Ek_after)",
-              "kinetic energy measured before and after the projection, velocities rescaled by sqrt(Ek_initial/Ek_after)",
-              "kinetic-energy restoration of COM removal is broken (order of measurements or rescale factor)")
-    dflt = {a.arg: norm(d) for a, d in zip(zc.args.args[-len(zc.args.defaults):], zc.args.defaults)}
+    rng = random.Random(5)
+    R = lambda lo=-9, hi=9: sp.Rational(rng.randint(lo, hi), rng.randint(1, 5))
+    mass = np.array([[[sp.Integer(16)], [sp.Integer(12)], [sp.Integer(1)]], [[sp.Integer(14)], [sp.Integer(1)], [sp.Integer(0)]]], dtype=object)
+    coords0 = np.array([[[R() for _ in range(3)] for _ in range(3)] for _ in range(2)], dtype=object)
+    vel0 = np.array([[[R() for _ in range(3)] for _ in range(3)] for _ in range(2)], dtype=object)
+    vel0[1, 2, :] = sp.Integer(0)           # the padding atom is at rest
+    params = [a.arg for a in zc.args.args]
+    flags = [p_ for p_ in params[2:]]
+    need = {"remove_angular", "translate_to_origin", "restore_kinetic_energy"}
+    if not need <= set(flags):
+        raise AnalysisError(f"_zero_com: switches {sorted(need - set(flags))} not found in its signature")
+    dflt = {a.arg: norm(d_) for a, d_ in zip(zc.args.args[-len(zc.args.defaults):], zc.args.defaults)}
     ctx.check(dflt.get("restore_kinetic_energy") == "True", rid, md, zc, "Molecular_Dynamics_Basic._zero_com", "defaults",
               "restore_kinetic_energy defaults to True", f"_zero_com defaults are {dflt}")
+    consts = None
+    for ang, trans, restore in itertools.product((True, False), repeat=3):
+        I = NpSym(repo)
+        mol = types.SimpleNamespace(mass=mass.copy(), coordinates=coords0.copy(), velocities=vel0.copy())
+        selfns = types.SimpleNamespace()
+        for nm in ("_kinetic_energy", "_calc_temperature"):
+            q_ = f"Molecular_Dynamics_Basic.{nm}"
+            if md.has_func(q_):
+                f_ = md.func(q_)
+                setattr(selfns, nm, _bind(I, md, f_, selfns))
+        selfns.n_dof = sp.Integer(6)
+        try:
+            I.call_function(md, zc, [selfns, mol], {"remove_angular": ang, "translate_to_origin": trans, "restore_kinetic_energy": restore})
+        except Raised as e:
+            ctx.fail(rid, md, zc, "Molecular_Dynamics_Basic._zero_com", f"switches {ang, trans, restore}", f"_zero_com raises on an ordinary padded batch: {e.what[:100]}")
+            continue
+        v, r = mol.velocities, mol.coordinates
+        m = mass[..., 0]
+        tag = f"remove_angular={ang}, translate_to_origin={trans}, restore_kinetic_energy={restore}"
+        z = lambda x: sp.simplify(sp.sympify(x)) == 0
+        bad = []
+        for b in range(2):
+            Mtot = sum(m[b])
+            p_lin = [sum(m[b, a] * v[b, a, c] for a in range(3)) for c in range(3)]
+            if not all(z(x) for x in p_lin):
+                bad.append(f"molecule {b}: total linear momentum is not zero")
+            rc = [sum(m[b, a] * coords0[b, a, c] for a in range(3)) / Mtot for c in range(3)]
+            rr = [[coords0[b, a, c] - rc[c] for c in range(3)] for a in range(3)]
+            Lang = [sum(m[b, a] * (rr[a][(c + 1) % 3] * v[b, a, (c + 2) % 3] - rr[a][(c + 2) % 3] * v[b, a, (c + 1) % 3]) for a in range(3)) for c in range(3)]
+            L0 = None
+            if ang and not all(z(x) for x in Lang):
+                bad.append(f"molecule {b}: angular momentum about its centre of mass is not zero")
+            ke0 = sum(m[b, a] * vel0[b, a, c] ** 2 for a in range(3) for c in range(3))
+            ke1 = sum(m[b, a] * v[b, a, c] ** 2 for a in range(3) for c in range(3))
+            if restore and not z(ke0 - ke1):
+                bad.append(f"molecule {b}: kinetic energy is not restored")
+            if trans:
+                if not all(z(sum(m[b, a] * r[b, a, c] for a in range(3))) for c in range(3)):
+                    bad.append(f"molecule {b}: positions are not centred on the centre of mass")
+                if not all(z((r[b, a, c] - r[b, 0, c]) - (coords0[b, a, c] - coords0[b, 0, c])) for a in range(3) for c in range(3)):
+                    bad.append(f"molecule {b}: relative positions changed")
+            elif not all(z(r[b, a, c] - coords0[b, a, c]) for a in range(3) for c in range(3)):
+                bad.append(f"molecule {b}: positions changed although translate_to_origin is off")
+        if not all(z(v[1, 2, c]) for c in range(3)):
+            bad.append("the padding atom acquires a velocity")
+        ctx.check(not bad, rid, md, zc, "Molecular_Dynamics_Basic._zero_com", tag,
+                  f"{tag}: zero linear momentum{', zero angular momentum about the own centre of mass' if ang else ''}{', kinetic energy restored' if restore else ''}, "
+                  f"padding at rest, positions {'centred' if trans else 'untouched'} -- for both molecules of the padded batch (exact arithmetic)",
+                  f"{tag}: " + "; ".join(bad[:3]) + ": the centre-of-mass projection does not do what the run relies on")
 
 
+def _bind(I, md, f_, selfns):
+    """bound-method stand-in for the interpreter: calling it interprets f_ with `self` = selfns"""
+    def call(frame, *a, **k):
+        return I.call_function(md, f_, [selfns] + list(a), k)
+    return call
 def _r6_dof_and_forwarding(ctx, repo):
     md = repo.mod(MD)
     nad = repo.mod(NAD)
